@@ -360,5 +360,66 @@ func TestBoundedHeaderWriter(t *testing.T) {
 			}
 		}
 	}
+	// every run length: a run of exactly r zeros (and of exactly r equal non-zero lengths) between two other
+	// lengths, for r = 1..283, so that each boundary of the repeat codes (3, 6/7, 10/11, 138/139, multiples) occurs
+	report := func(litLens, distLens []uint8, tag int, m string) {
+		nfail++
+		cls := ""
+		for _, r := range m {
+			if (r < '0' || r > '9') && r != ' ' && r != '[' && r != ']' {
+				cls += string(r)
+			}
+		}
+		if len(cls) > 60 {
+			cls = cls[:60]
+		}
+		if seen[cls] {
+			return
+		}
+		seen[cls] = true
+		s, d := "", ""
+		for q, v := range litLens {
+			if q > 0 {
+				s += ","
+			}
+			s += strconv.Itoa(int(v))
+		}
+		for q, v := range distLens {
+			if q > 0 {
+				d += ","
+			}
+			d += strconv.Itoa(int(v))
+		}
+		t.Errorf("BOUNDED-FAIL lens=[%s] prefill=%d: %s | dist=[%s]", s, tag, m, d)
+	}
+	for r := 1; r <= 283; r++ {
+		for variant := 0; variant < 2; variant++ {
+			litLens := make([]uint8, 286)
+			// symbol 0 and symbol r+1 frame the run; the end-of-block symbol needs a code too
+			fill := uint8(0)
+			if variant == 1 {
+				fill = 9
+			}
+			litLens[0] = 2
+			for k := 1; k <= r && k < 286; k++ {
+				litLens[k] = fill
+			}
+			if r+1 < 286 {
+				litLens[r+1] = 3
+			}
+			if litLens[256] == 0 {
+				litLens[256] = 3
+			}
+			distLens := make([]uint8, 30)
+			distLens[0] = 1
+			for _, eos := range []bool{false, true} {
+				explored++
+				// the lengths need not form a complete code: the header writer only transcribes them
+				if m := wCheckHeader(litLens, distLens, eos, r%3); m != "" {
+					report(litLens, distLens, r%3, m)
+				}
+			}
+		}
+	}
 	t.Logf("BOUNDED explored=%d failing=%d (dynamic header writer: code length vectors x final flag)", explored, nfail)
 }
